@@ -81,7 +81,8 @@ def enumerate_cases(tier, seed):
         return
     seen = set()
     for i, c in enumerate(_all_cases()):
-        k = (tuple(c["policy"]), c["kind"], c["override"])
+        # every (policy, kind, override) at least once; for three override settings once per route
+        k = (tuple(c["policy"]), c["kind"], c["override"], c["route"] if c["override"] in (None, "match", "no-raise") else "any")
         h = core.hash32(seed, "c05", i) % 100
         if h < 3 or k not in seen:
             seen.add(k)
@@ -104,6 +105,9 @@ def run_case(case, sb):
         attr = None
     else:
         other = ["collect"] if "collect" not in pol or len(pol) > 1 else ["print"]
+        if "raise" not in pol and len(pol) % 2 == 1:
+            # what config.ini says must not matter once the policy is set on the instance: here it says 'raise'
+            other = ["raise", "collect", "print"]
         sb.write_config(other)
         attr = pol
     rel = sb.write_csv("f.csv", records)
@@ -120,6 +124,8 @@ def run_case(case, sb):
     if case.get("stopper"):
         # stop() on the first offending line ends the run there whatever the policy says
         exp = errpolicy.expect(pol, ov, [bad[0] + 1], list(range(1, bad[0] + 2)))
+        # (the stopping line is not returned: stop() is not the final component)
+        exp["returned_must"] = [n for n in exp["returned_must"] if n != bad[0] + 1]
     if lastblank:
         # all five data lines are fine; the error is raised on the blank final line (6), where only
         # last() components run (no 'tr' push there) and no line is returned
